@@ -184,26 +184,26 @@ pub fn check_spec(spec: &ArchiveSpec, b: &Built, bufs: &[usize]) -> Result<(), S
 // ------------------------------------------------------------------ CPython as a second producer
 #[derive(Clone, Debug, Serialize, Deserialize, Hash)]
 pub struct PyEntry {
-    name: String,
-    content: crate::refzip::Content,
-    method: u16,
+    pub name: String,
+    pub content: crate::refzip::Content,
+    pub method: u16,
     #[serde(with = "crate::util::hexbytes")]
-    comment: Vec<u8>,
-    create_system: u8,
-    external_attr: u32,
-    date_time: (u16, u8, u8, u8, u8, u8),
-    force_zip64: bool,
+    pub comment: Vec<u8>,
+    pub create_system: u8,
+    pub external_attr: u32,
+    pub date_time: (u16, u8, u8, u8, u8, u8),
+    pub force_zip64: bool,
 }
 #[derive(Clone, Debug, Serialize, Deserialize, Hash)]
 pub struct PySpec {
-    entries: Vec<PyEntry>,
+    pub entries: Vec<PyEntry>,
     #[serde(with = "crate::util::hexbytes")]
-    comment: Vec<u8>,
-    prefix_len: u32,
-    streaming: bool,
+    pub comment: Vec<u8>,
+    pub prefix_len: u32,
+    pub streaming: bool,
 }
 
-fn py_spec() -> BoxedStrategy<PySpec> {
+pub fn py_spec() -> BoxedStrategy<PySpec> {
     let e = (
         prop_oneof![4 => "[a-z0-9_.-]{1,12}(/[a-z0-9_.-]{1,8}){0,2}/?", 2 => "[a-zé漢ß😀]{1,10}", 1 => "[a-z]{1,5}\\\\[a-z]{1,5}"],
         crate::refzip::content::content(30000),
@@ -220,14 +220,13 @@ fn py_spec() -> BoxedStrategy<PySpec> {
         .boxed()
 }
 
-fn check_py(s: &PySpec, idx_tag: u64) -> Result<(), String> {
+/// Let CPython's zipfile write the archive described by `s`.
+pub fn py_produce(s: &PySpec) -> Result<Vec<u8>, String> {
     let root = std::env::var("ZV_ROOT").unwrap_or_else(|_| "/verif".into());
     static SEQ: std::sync::atomic::AtomicU64 = std::sync::atomic::AtomicU64::new(0);
-    let _ = idx_tag;
-    let dir = std::path::PathBuf::from(format!("/var/tmp/zv-c03-{}-{}", std::process::id(), SEQ.fetch_add(1, std::sync::atomic::Ordering::Relaxed)));
+    let dir = std::path::PathBuf::from(format!("/var/tmp/zv-py-{}-{}", std::process::id(), SEQ.fetch_add(1, std::sync::atomic::Ordering::Relaxed)));
     std::fs::create_dir_all(&dir).map_err(|e| format!("harness: {e}"))?;
-    let r = (|| -> Result<(), String> {
-        // job file for the producer
+    let r = (|| -> Result<Vec<u8>, String> {
         let job = serde_json::json!({
             "comment": crate::util::hex(&s.comment), "prefix_len": s.prefix_len, "streaming": s.streaming,
             "entries": s.entries.iter().map(|e| serde_json::json!({
@@ -239,7 +238,23 @@ fn check_py(s: &PySpec, idx_tag: u64) -> Result<(), String> {
         if !out.status.success() {
             return Err(format!("harness: zf_produce.py failed: {}", String::from_utf8_lossy(&out.stderr)));
         }
-        let bytes = std::fs::read(dir.join("out.zip")).map_err(|e| format!("harness: {e}"))?;
+        std::fs::read(dir.join("out.zip")).map_err(|e| format!("harness: {e}"))
+    })();
+    let _ = std::fs::remove_dir_all(&dir);
+    r
+}
+
+/// DOS words CPython stores for a date_time tuple
+pub fn py_dos(dt: (u16, u8, u8, u8, u8, u8)) -> (u16, u16) {
+    let (y, mo, d, h, mi, sec) = dt;
+    ((d as u16) | ((mo as u16) << 5) | ((y - 1980) << 9), ((sec as u16) >> 1) | ((mi as u16) << 5) | ((h as u16) << 11))
+}
+
+fn check_py(s: &PySpec, idx_tag: u64) -> Result<(), String> {
+    let _ = idx_tag;
+    let bytes = py_produce(s)?;
+    {
+        let r = (|| -> Result<(), String> {
         let mut za = ZipArchive::new(Cursor::new(&bytes[..])).map_err(|e| format!("ZipArchive::new refused a CPython-written archive: {e}"))?;
         if za.len() != s.entries.len() {
             return Err(format!("len() {} != {}", za.len(), s.entries.len()));
@@ -285,9 +300,9 @@ fn check_py(s: &PySpec, idx_tag: u64) -> Result<(), String> {
             }
         }
         Ok(())
-    })();
-    let _ = std::fs::remove_dir_all(&dir);
-    r
+        })();
+        r
+    }
 }
 
 #[derive(Clone, Debug, Serialize, Deserialize, Hash)]
